@@ -95,7 +95,7 @@ OTHER = ["UTC", "GMT", "Nowhere/None", "abc", "EST", "EDT", "CET", ":Zone/F0",
 # with the time module alone, no dateutil involved). Such settings would make
 # any history-independence oracle report libc, not dateutil.
 TZ_SETTINGS = [None, "EST5EDT,M3.2.0,M11.1.0", "CET-1CEST,M3.5.0,M10.5.0/3",
-               "UTC"]
+               "UTC", "WET0", "XYZ0", "GMT0"]
 
 OFF_NAMES = ["A", "B", None]
 OFFSETS = [0, 3600, -18000, 19800, 1, -86399]
